@@ -404,8 +404,8 @@ def evaluate(cases, tag="C06"):
     return out
 
 
-def shrink(case, rounds=8):
-    """Greedy: drop columns / batches / rows while the checker still rejects."""
+def shrink(case, obligation, rounds=8):
+    """Greedy: drop columns / batches / rows / lower the cap while the same check still rejects."""
     cur = dict(case)
     for _ in range(rounds):
         variants = []
@@ -432,7 +432,7 @@ def shrink(case, rounds=8):
             vs = evaluate(variants, tag="C06s")
         except vlib.Broken:
             break
-        bad = [v for v, o in zip(variants, vs) if o is not None and not o["ok"] and o["obligation"] != "impl-raises"]
+        bad = [v for v, o in zip(variants, vs) if o is not None and not o["ok"] and o["obligation"] == obligation]
         if not bad:
             break
         cur = min(bad, key=lambda v: (len(v["cols"]), v["batches"], v["cap"], v["nrows"]))
@@ -466,7 +466,7 @@ def check(run, replay):
         cases = [replay["case"]]
     else:
         cases = load_corpus("C06")
-        n = 260 if run.tier == "quick" else 1500
+        n = 400 if run.tier == "quick" else 1500
         for _ in range(n):
             cases.append(gen_case(run.rng, run.tier))
         cases.append(clamp_case(run.rng))
@@ -506,7 +506,7 @@ def check(run, replay):
             if o["obligation"] == "impl-raises":
                 hist["impl_errors"] += 1
             if reported < 1 and replay is None and not c.get("light") and o["obligation"] != "impl-raises":
-                small = shrink(c)
+                small = shrink(c, o["obligation"])
                 if small != c:
                     o2 = evaluate([small], tag="C06s")[0]
                     if not o2["ok"]:
